@@ -559,8 +559,10 @@ func genValid(w *world, r *rng.R, size int) *gDoc {
 		if op.Kind == "subscription" {
 			// exactly one root field (possibly twice the same, possibly through a fragment)
 			top := &gSet{Parent: root}
+			nv, vars := g.nVar, len(op.Vars)
 			f := g.field(root, top, false)
 			for f.Name == "__typename" {
+				g.nVar, op.Vars = nv, op.Vars[:vars] // forget what the discarded field declared
 				f = g.field(root, top, false)
 			}
 			top.Sels = []*gSel{f}
